@@ -53,6 +53,7 @@ def _case(draw, unit):
             'N': draw(st.sampled_from([1, 2])), 'C': draw(st.sampled_from([1, 2, 3])),
             'o_dim': o, 'ri_dim': ri, 'skip': mask(), 'scales': mask(),
             'mode': draw(st.sampled_from(['symmetric', 'symmetric', 'zero'])),
+            'mask_container': draw(st.sampled_from(['list', 'list', 'tuple', 'ndarray'])),
             'dtype': draw(st.sampled_from(['f64', 'f64', 'f32'])),
             'rx': draw(core.recipe_strategy())}
 
@@ -122,10 +123,17 @@ def run_case(case):
             'layout_o%d_ri%d' % (o % 6, ri % 6))
     r.nontrivial = nondefault or (any(skip) and not all(skip)) or (any(scl) and not all(scl))
     x = torch.tensor(core.make(case['rx'], [case['N'], case['C'], H, W]), dtype=tdt)
+    def boxed(m):
+        # the documented containers for the per-level masks: list, tuple or ndarray (or one bool for all levels)
+        kind = case.get('mask_container', 'list')
+        if isinstance(m, bool) or kind == 'list':
+            return m
+        return tuple(m) if kind == 'tuple' else np.array(m, dtype=bool)
+    r.label('masks_as_' + case.get('mask_container', 'list'))
     with dwtu.default_dtype(tdt):
         base = DTCWTForward(biort=b, qshift=q, J=J, mode=mode)
-        fwd = DTCWTForward(biort=b, qshift=q, J=J, o_dim=o, ri_dim=ri, skip_hps=case['skip'],
-                           include_scale=case['scales'], mode=mode)
+        fwd = DTCWTForward(biort=b, qshift=q, J=J, o_dim=o, ri_dim=ri, skip_hps=boxed(case['skip']),
+                           include_scale=boxed(case['scales']), mode=mode)
         inv0 = DTCWTInverse(biort=b, qshift=q, mode=mode)
         inv = DTCWTInverse(biort=b, qshift=q, o_dim=o, ri_dim=ri, mode=mode)
     yl0, yh0 = core.libcall(base, x)
